@@ -292,8 +292,23 @@ def _protocol_missing_on_sidecar_object(e):
         tb = tb.tb_next
     if last is None:
         return False
+    import sys
+
+    # a module-level class of the sidecar / the machinery with that name
+    for mname, mod in list(sys.modules.items()):
+        if mname.startswith(("contracts.", "ujvc.")):
+            for n in names:
+                c = getattr(mod, n.split(".")[-1], None)
+                if isinstance(c, type) and _is_sidecar_object(c):
+                    return True
+    # ... or a class / object local to the unit that is running (any frame of the traceback), or visible from the frame that raised
     fr = last.tb_frame
     seen = list(fr.f_locals.values()) + list(fr.f_globals.values())
+    tb = e.__traceback__
+    while tb is not None:
+        if tb.tb_frame is not fr:
+            seen.extend(tb.tb_frame.f_locals.values())
+        tb = tb.tb_next
     for o in list(seen):
         try:
             d = vars(o)
